@@ -694,7 +694,7 @@ def _compile_config_value(
     if op.backend_setting and op.scope is qltypes.ConfigScope.INSTANCE:
         assert isinstance(val, pgast.SelectStmt) and len(val.target_list) == 1
         val = val.target_list[0].val
-        if isinstance(val, pgast.TypeCast):
+        while isinstance(val, pgast.TypeCast):
             val = val.arg
         if not isinstance(val, pgast.BaseConstant):
             raise AssertionError('value is not a constant in ConfigSet')
